@@ -3,13 +3,16 @@
 //!
 //! Input line (windower case):
 //!   `W <wk> <fk> <nch> <bin> <hop> <maxn> <L> d...`
-//!     wk: 0 Hann, 1 Rectangle; fk: 0 f32, 1 f64, 2 i16; nch: 1 (bare sample / [i16;1]) or 2 ([S;2]);
+//!     wk: 0 Hann, 1 Rectangle; fk: 0 f32, 1 f64, 2 i16, 100+c = format code c of all fourteen
+//!     (0 i8 1 i16 2 I24 3 i32 4 I48 5 i64 6 u8 7 u16 8 U24 9 u32 10 U48 11 u64 12 f32 13 f64; I24.. travel as
+//!     their inner value); nch: 1 (bare sample / [i16;1]) or 2 ([S;2]);
 //!     maxn: maximal number of next() calls; d: L*nch samples (floats as bit patterns).
 //! Output: observations joined by ';'
 //!   100 phases of Window::<f64,W>::new(bin) (bin+2 of them, f64 bits, read from the pub `phase` field)
 //!   101 Window::<f64,W> values (helper fn hann/rectangle), bin+2, f64 bits
 //!   102 Window::<F::Float,W> values, bin+2 frames flattened (bits of F::Float samples)
 //!   103 W::window(phase) through the dasp_window::Window trait for the phases of 100
+//!   104 Window::<F,W> values in the frame's OWN format (window value -> S::Float -> S), bin+2 frames flattened
 //!   then repeatedly:  `1 lo 1 hi` | `1 lo 0`  (size_hint before next)
 //!                     `2 samples...` (bin+2 frames of the yielded Windowed, flattened) | `3` (None)
 //!   after the first None: size_hint and next once more.   `8 code` = panic.
@@ -25,7 +28,7 @@
 //!     results `6 bits` | `3` | `7 bits...`.
 //!   Ops on the Windowed of wr.clone().next(): cnth k (nth(k) then next(): two frames) | cskip k | ctakelast n.
 use dasp_frame::Frame;
-use dasp_sample::Sample;
+use dasp_sample::{Sample, I24, I48, U24, U48};
 use dasp_signal::window::{self, Window, Windower};
 use dasp_verif_harness::*;
 use dasp_window::{Hann, Rectangle, Window as WindowType};
@@ -75,14 +78,32 @@ impl Sx for f64 {
         b64(self)
     }
 }
-impl Sx for i16 {
-    fn dec(v: i128) -> Self {
-        v as i16
-    }
-    fn enc(self) -> i128 {
-        self as i128
-    }
+macro_rules! sx_int {
+    ($($t:ty)*) => {$(
+        impl Sx for $t {
+            fn dec(v: i128) -> Self {
+                v as $t
+            }
+            fn enc(self) -> i128 {
+                self as i128
+            }
+        }
+    )*};
 }
+sx_int!(i8 i16 i32 i64 u8 u16 u32 u64);
+macro_rules! sx_custom {
+    ($($t:ty, $r:ty);*) => {$(
+        impl Sx for $t {
+            fn dec(v: i128) -> Self {
+                <$t>::new_unchecked(v as $r)
+            }
+            fn enc(self) -> i128 {
+                self.inner() as i128
+            }
+        }
+    )*};
+}
+sx_custom!(I24, i32; U24, i32; I48, i64; U48, i64);
 
 fn enc_frame<F: Frame>(f: F, out: &mut Vec<i128>)
 where
@@ -161,6 +182,11 @@ where
     }
     out.push(ob(102, &wf));
     out.push(ob(103, &phases.iter().map(|p| b64(W::window(*p))).collect::<Vec<_>>()));
+    let mut wo = Vec::new();
+    for fr in Window::<F, W>::new(bin).take(m) {
+        enc_frame(fr, &mut wo);
+    }
+    out.push(ob(104, &wo));
 
     let frames: Vec<F> = dec_frames(data);
     let mut wr = W::mk(&frames[..], bin, hop);
@@ -360,6 +386,48 @@ fn main() {
                     (1, 2) => dispatch::<[f64; 2]>(wk, bin, hop, maxn, data),
                     (2, 1) => dispatch::<[i16; 1]>(wk, bin, hop, maxn, data),
                     (2, 2) => dispatch::<[i16; 2]>(wk, bin, hop, maxn, data),
+                    (100, 1) => dispatch::<i8>(wk, bin, hop, maxn, data),
+                    (100, 2) => dispatch::<[i8; 2]>(wk, bin, hop, maxn, data),
+                    (100, 3) => dispatch::<[i8; 3]>(wk, bin, hop, maxn, data),
+                    (101, 1) => dispatch::<i16>(wk, bin, hop, maxn, data),
+                    (101, 2) => dispatch::<[i16; 2]>(wk, bin, hop, maxn, data),
+                    (101, 3) => dispatch::<[i16; 3]>(wk, bin, hop, maxn, data),
+                    (102, 1) => dispatch::<I24>(wk, bin, hop, maxn, data),
+                    (102, 2) => dispatch::<[I24; 2]>(wk, bin, hop, maxn, data),
+                    (102, 3) => dispatch::<[I24; 3]>(wk, bin, hop, maxn, data),
+                    (103, 1) => dispatch::<i32>(wk, bin, hop, maxn, data),
+                    (103, 2) => dispatch::<[i32; 2]>(wk, bin, hop, maxn, data),
+                    (103, 3) => dispatch::<[i32; 3]>(wk, bin, hop, maxn, data),
+                    (104, 1) => dispatch::<I48>(wk, bin, hop, maxn, data),
+                    (104, 2) => dispatch::<[I48; 2]>(wk, bin, hop, maxn, data),
+                    (104, 3) => dispatch::<[I48; 3]>(wk, bin, hop, maxn, data),
+                    (105, 1) => dispatch::<i64>(wk, bin, hop, maxn, data),
+                    (105, 2) => dispatch::<[i64; 2]>(wk, bin, hop, maxn, data),
+                    (105, 3) => dispatch::<[i64; 3]>(wk, bin, hop, maxn, data),
+                    (106, 1) => dispatch::<u8>(wk, bin, hop, maxn, data),
+                    (106, 2) => dispatch::<[u8; 2]>(wk, bin, hop, maxn, data),
+                    (106, 3) => dispatch::<[u8; 3]>(wk, bin, hop, maxn, data),
+                    (107, 1) => dispatch::<u16>(wk, bin, hop, maxn, data),
+                    (107, 2) => dispatch::<[u16; 2]>(wk, bin, hop, maxn, data),
+                    (107, 3) => dispatch::<[u16; 3]>(wk, bin, hop, maxn, data),
+                    (108, 1) => dispatch::<U24>(wk, bin, hop, maxn, data),
+                    (108, 2) => dispatch::<[U24; 2]>(wk, bin, hop, maxn, data),
+                    (108, 3) => dispatch::<[U24; 3]>(wk, bin, hop, maxn, data),
+                    (109, 1) => dispatch::<u32>(wk, bin, hop, maxn, data),
+                    (109, 2) => dispatch::<[u32; 2]>(wk, bin, hop, maxn, data),
+                    (109, 3) => dispatch::<[u32; 3]>(wk, bin, hop, maxn, data),
+                    (110, 1) => dispatch::<U48>(wk, bin, hop, maxn, data),
+                    (110, 2) => dispatch::<[U48; 2]>(wk, bin, hop, maxn, data),
+                    (110, 3) => dispatch::<[U48; 3]>(wk, bin, hop, maxn, data),
+                    (111, 1) => dispatch::<u64>(wk, bin, hop, maxn, data),
+                    (111, 2) => dispatch::<[u64; 2]>(wk, bin, hop, maxn, data),
+                    (111, 3) => dispatch::<[u64; 3]>(wk, bin, hop, maxn, data),
+                    (112, 1) => dispatch::<f32>(wk, bin, hop, maxn, data),
+                    (112, 2) => dispatch::<[f32; 2]>(wk, bin, hop, maxn, data),
+                    (112, 3) => dispatch::<[f32; 3]>(wk, bin, hop, maxn, data),
+                    (113, 1) => dispatch::<f64>(wk, bin, hop, maxn, data),
+                    (113, 2) => dispatch::<[f64; 2]>(wk, bin, hop, maxn, data),
+                    (113, 3) => dispatch::<[f64; 3]>(wk, bin, hop, maxn, data),
                     _ => panic!("frame kind"),
                 }
             }
@@ -382,6 +450,48 @@ fn main() {
                     (1, 2) => dispatch_i::<[f64; 2]>(wk, bin, hop, np, data, &ops),
                     (2, 1) => dispatch_i::<[i16; 1]>(wk, bin, hop, np, data, &ops),
                     (2, 2) => dispatch_i::<[i16; 2]>(wk, bin, hop, np, data, &ops),
+                    (100, 1) => dispatch_i::<i8>(wk, bin, hop, np, data, &ops),
+                    (100, 2) => dispatch_i::<[i8; 2]>(wk, bin, hop, np, data, &ops),
+                    (100, 3) => dispatch_i::<[i8; 3]>(wk, bin, hop, np, data, &ops),
+                    (101, 1) => dispatch_i::<i16>(wk, bin, hop, np, data, &ops),
+                    (101, 2) => dispatch_i::<[i16; 2]>(wk, bin, hop, np, data, &ops),
+                    (101, 3) => dispatch_i::<[i16; 3]>(wk, bin, hop, np, data, &ops),
+                    (102, 1) => dispatch_i::<I24>(wk, bin, hop, np, data, &ops),
+                    (102, 2) => dispatch_i::<[I24; 2]>(wk, bin, hop, np, data, &ops),
+                    (102, 3) => dispatch_i::<[I24; 3]>(wk, bin, hop, np, data, &ops),
+                    (103, 1) => dispatch_i::<i32>(wk, bin, hop, np, data, &ops),
+                    (103, 2) => dispatch_i::<[i32; 2]>(wk, bin, hop, np, data, &ops),
+                    (103, 3) => dispatch_i::<[i32; 3]>(wk, bin, hop, np, data, &ops),
+                    (104, 1) => dispatch_i::<I48>(wk, bin, hop, np, data, &ops),
+                    (104, 2) => dispatch_i::<[I48; 2]>(wk, bin, hop, np, data, &ops),
+                    (104, 3) => dispatch_i::<[I48; 3]>(wk, bin, hop, np, data, &ops),
+                    (105, 1) => dispatch_i::<i64>(wk, bin, hop, np, data, &ops),
+                    (105, 2) => dispatch_i::<[i64; 2]>(wk, bin, hop, np, data, &ops),
+                    (105, 3) => dispatch_i::<[i64; 3]>(wk, bin, hop, np, data, &ops),
+                    (106, 1) => dispatch_i::<u8>(wk, bin, hop, np, data, &ops),
+                    (106, 2) => dispatch_i::<[u8; 2]>(wk, bin, hop, np, data, &ops),
+                    (106, 3) => dispatch_i::<[u8; 3]>(wk, bin, hop, np, data, &ops),
+                    (107, 1) => dispatch_i::<u16>(wk, bin, hop, np, data, &ops),
+                    (107, 2) => dispatch_i::<[u16; 2]>(wk, bin, hop, np, data, &ops),
+                    (107, 3) => dispatch_i::<[u16; 3]>(wk, bin, hop, np, data, &ops),
+                    (108, 1) => dispatch_i::<U24>(wk, bin, hop, np, data, &ops),
+                    (108, 2) => dispatch_i::<[U24; 2]>(wk, bin, hop, np, data, &ops),
+                    (108, 3) => dispatch_i::<[U24; 3]>(wk, bin, hop, np, data, &ops),
+                    (109, 1) => dispatch_i::<u32>(wk, bin, hop, np, data, &ops),
+                    (109, 2) => dispatch_i::<[u32; 2]>(wk, bin, hop, np, data, &ops),
+                    (109, 3) => dispatch_i::<[u32; 3]>(wk, bin, hop, np, data, &ops),
+                    (110, 1) => dispatch_i::<U48>(wk, bin, hop, np, data, &ops),
+                    (110, 2) => dispatch_i::<[U48; 2]>(wk, bin, hop, np, data, &ops),
+                    (110, 3) => dispatch_i::<[U48; 3]>(wk, bin, hop, np, data, &ops),
+                    (111, 1) => dispatch_i::<u64>(wk, bin, hop, np, data, &ops),
+                    (111, 2) => dispatch_i::<[u64; 2]>(wk, bin, hop, np, data, &ops),
+                    (111, 3) => dispatch_i::<[u64; 3]>(wk, bin, hop, np, data, &ops),
+                    (112, 1) => dispatch_i::<f32>(wk, bin, hop, np, data, &ops),
+                    (112, 2) => dispatch_i::<[f32; 2]>(wk, bin, hop, np, data, &ops),
+                    (112, 3) => dispatch_i::<[f32; 3]>(wk, bin, hop, np, data, &ops),
+                    (113, 1) => dispatch_i::<f64>(wk, bin, hop, np, data, &ops),
+                    (113, 2) => dispatch_i::<[f64; 2]>(wk, bin, hop, np, data, &ops),
+                    (113, 3) => dispatch_i::<[f64; 3]>(wk, bin, hop, np, data, &ops),
                     _ => panic!("frame kind"),
                 }
             }
